@@ -2,7 +2,11 @@ pub mod c01;
 pub mod c02;
 pub mod c03;
 pub mod c04;
+pub mod c06;
+pub mod c10;
+pub mod c11;
 pub mod c15;
+pub mod c16;
 pub mod c18;
 
 use crate::engine::Property;
@@ -13,7 +17,11 @@ pub fn by_id(id: &str) -> Option<Box<dyn Property>> {
         "C02" => Box::new(c02::C02),
         "C03" => Box::new(c03::C03),
         "C04" => Box::new(c04::C04),
+        "C06" => Box::new(c06::C06),
+        "C10" => Box::new(c10::C10),
+        "C11" => Box::new(c11::C11),
         "C15" => Box::new(c15::C15),
+        "C16" => Box::new(c16::C16),
         "C18" => Box::new(c18::C18),
         _ => return None,
     })
@@ -22,6 +30,7 @@ pub fn by_id(id: &str) -> Option<Box<dyn Property>> {
 /// auxiliary subcommands used by some checks (fresh-process trials etc.)
 pub fn subcommand(args: &[String]) -> Option<i32> {
     match args[0].as_str() {
+        "gen-once" => Some(c06::gen_once(&args[1])),
         "selfcheck" => {
             let rounds = args.get(1).and_then(|s| s.parse().ok()).unwrap_or(50);
             match crate::realcorpus::self_check(1, rounds) {
